@@ -387,48 +387,27 @@ Definition read_lazy (h : hctx) (line : list N) : option vrec :=
             r_info := info; r_keys := ks; r_samples := rows |}
   end end end end.
 
-(* KNOWN DEFECT (lazy-record-cr-before-empty-last-column-panic).  read_record strips the CR of a
-   CR LF terminator from the END OF THE WHOLE BUFFER, not from what the last read appended:
-   (a) INFO followed by a TAB and nothing else before the LF: read_line appends nothing, pops the
-   LF it read and then a trailing CR -- the last byte of the INFO column; (b) an empty INFO column
-   ended by the LF: read_field sees EOL and pops a CR that is the last byte of the last
-   non-empty column before it (FILTER, or an earlier one when the columns in between are empty).
-   A column bound then lies beyond the buffer and the accessors of that column and of every later
-   one panic (slice index out of range); the accessors of earlier columns still answer, so the
-   forced view (variant_start, quality_score, info, ... in that order) can still end in an Err. *)
-Fixpoint last_ne (fs : list (list N)) (i acc : nat) : nat :=
-  match fs with
-  | [] => acc
-  | f :: t => last_ne t (S i) (match f with [] => acc | _ => i end)
-  end.
+(* FORMER DEFECT lazy-record-cr-before-empty-last-column-panic (repaired in fb10cd9): read_field /
+   read_line used to strip the CR of a CR LF terminator from the end of the WHOLE record buffer,
+   so on `...<CR><TAB><LF>` (nothing after the TAB that follows INFO) or on an empty INFO column
+   ended by the LF they removed the last byte of an earlier column, a column bound was left
+   beyond the buffer and the accessors panicked.  Now both strip the CR only from the bytes they
+   appended themselves: on the framed line (CR dropped only when it is the last byte before the
+   LF) that is exactly [read_lazy], for every line.  [lazy_cr_class] keeps the input class, for
+   the regression examples and the harness. *)
 Definition ends_cr (s : list N) : bool := match rev s with 13 :: _ => true | _ => false end.
 
-(* the line has 8 or 9 columns, the last one is empty, and the bytes before it end with CR *)
-Definition lazy_panics (line : list N) : bool :=
+Definition lazy_cr_class (line : list N) : bool :=
   let ps := split_all 9 line in
   match skipn 7 ps with
-  | [[]] => ends_cr (concat (firstn 7 ps))     (* (b): eight columns, INFO empty *)
-  | [_; []] => ends_cr (concat (firstn 8 ps))  (* (a): INFO, TAB, end of line *)
+  | [[]] => ends_cr (concat (firstn 7 ps))     (* eight columns, INFO empty *)
+  | [_; []] => ends_cr (concat (firstn 8 ps))  (* INFO, TAB, end of line *)
   | _ => false
   end.
 
-(* on the text with its terminator: the class is decided on the line before the CR of a CRLF is
-   dropped (with CRLF the CR that read_line pops is its own, and nothing goes wrong) *)
-Definition read_lazy_p (h : hctx) (text : list N) : res vrec :=
-  let raw := take_until 10 text in
-  if lazy_panics raw then
-    let ps := split_all 9 raw in
-    (* the column that lost its last byte: INFO in class (a), the last non-empty one in (b) *)
-    let j := match skipn 7 ps with [[]] => last_ne (firstn 7 ps) 0 0 | _ => last_ne (firstn 8 ps) 0 0 end in
-    let pos_ok := match parse_position (fld ps 1) with Some _ => true | None => false end in
-    let qual_ok := if bytes_eqb (fld ps 5) dot then true
-                   else match prs_float (fld ps 5) with Some _ => true | None => false end in
-    if (j <=? 1)%nat then Panic
-    else if negb pos_ok then Err InvalidData
-    else if (j <=? 5)%nat then Panic
-    else if negb qual_ok then Err InvalidData
-    else Panic
-  else match read_lazy h (frame text) with Some r => Ok r | None => Err InvalidData end.
+(* the lazy reader on a text with its terminator *)
+Definition read_lazy_text (h : hctx) (text : list N) : option vrec := read_lazy h (frame text).
+Definition read_eager_text (h : hctx) (text : list N) : option vrec := read_eager h (frame text).
 
 (* ---------------------------------------------------------------------------------------- *)
 (* the record span (variant/record.rs::variant_end / variant_span) from the record's accessors:
